@@ -145,6 +145,22 @@ func c11Run(c core.Case, env *core.Env) core.Result {
 				control("schnorr", func() bool { return pf.Verify(sess, X) })
 				rejected("schnorr: proof for xG shown for (x+d)G", func() bool { return pf.Verify(sess, X2) })
 			}
+			// first move repaired after the challenge: the prover knows x, claims the point 2(xG), runs the honest prover for
+			// that claim (T = a + c*x) and then publishes Alpha' = T*G - 2*(c*xG) instead of a*G. c*xG = T*G - Alpha is
+			// public, so no discrete logarithm is needed. Works exactly when the challenge does not depend on Alpha.
+			if X2x, err := X.Add(X); err == nil {
+				if pf, err := schnorr.NewZKProof(sess, x, X2x, rand.Reader); err == nil && new(big.Int).Mod(pf.T, q).Sign() != 0 {
+					tG := crypto.ScalarBaseMult(ec, pf.T)
+					if E, err := tG.Add(negPoint(ec, pf.Alpha)); err == nil {
+						if E2, err := E.Add(E); err == nil {
+							if A2, err := tG.Add(negPoint(ec, E2)); err == nil {
+								forged := &schnorr.ZKProof{Alpha: A2, T: pf.T}
+								rejected("schnorr: statement 2(xG), first move recomputed from the response", func() bool { return forged.Verify(sess, X2x) })
+							}
+						}
+					}
+				}
+			}
 			// Schnorr-V: V = sR + lG, wrong s or wrong l
 			s, l := randBig(rg, q), randBig(rg, q)
 			if s.Sign() == 0 || l.Sign() == 0 {
@@ -808,6 +824,32 @@ func c11Bob(r *core.Result, c core.Case, env *core.Env, sess []byte, rejected fu
 				return err == nil && pf.Verify(sess, ec, pk, NT, h1, h2, c1, c2, negX)
 			})
 		}
+		// first move repaired after the challenge: Bob knows x, claims the point 2(xG), runs the honest prover for that claim
+		// and then publishes u' = s1*G - 2*(e*xG) instead of alpha*G; e*xG = s1*G - u is public. Every Paillier-side equation
+		// is honest. Works exactly when the challenge does not depend on u.
+		if X2x, err := X.Add(X); err == nil {
+			rejected("bob-wc: X = 2(xG), u recomputed from the response s1", func() bool {
+				pf, err := mta.ProveBobWC(sess, ec, pk, NT, h1, h2, c1, c2, x0, y0, rr, X2x, rand.Reader)
+				if err != nil || new(big.Int).Mod(pf.S1, q).Sign() == 0 {
+					return false
+				}
+				sG := crypto.ScalarBaseMult(ec, pf.S1)
+				E, err := sG.Add(negPoint(ec, pf.U))
+				if err != nil {
+					return false
+				}
+				E2, err := E.Add(E)
+				if err != nil {
+					return false
+				}
+				u2, err := sG.Add(negPoint(ec, E2))
+				if err != nil {
+					return false
+				}
+				pf.U = u2
+				return pf.Verify(sess, ec, pk, NT, h1, h2, c1, c2, X2x)
+			})
+		}
 		// proof without check shown where the check is required and vice versa
 		rejected("bob proof (no check) verified as with-check", func() bool {
 			pf, err := mta.ProveBob(sess, ec, pk, NT, h1, h2, c1, c2, x0, y0, rr, rand.Reader)
@@ -1118,4 +1160,13 @@ func c13Run(c core.Case, env *core.Env) core.Result {
 	}
 	_ = ref.SecpN
 	return r
+}
+
+// negPoint returns -P (Weierstrass: (x, p-y); twisted Edwards: (p-x, y)).
+func negPoint(ec elliptic.Curve, P *crypto.ECPoint) *crypto.ECPoint {
+	fp := ec.Params().P
+	if tss.SameCurve(ec, tss.Edwards()) {
+		return crypto.NewECPointNoCurveCheck(ec, new(big.Int).Mod(new(big.Int).Sub(fp, P.X()), fp), P.Y())
+	}
+	return crypto.NewECPointNoCurveCheck(ec, P.X(), new(big.Int).Mod(new(big.Int).Sub(fp, P.Y()), fp))
 }
